@@ -50,19 +50,19 @@ done
 `
 
 type rpCase struct {
-	Signal      int    `json:"signal"`
-	ParentOnly  bool   `json:"parent_only"`
-	Timeout     int    `json:"timeout"`
-	Command     string `json:"command"` // "" | "ok" | "fail" | "hang"
-	Depth       int    `json:"depth"`
-	Kids        int    `json:"kids"`
-	Ignore      bool   `json:"ignore_term"`   // the parent ignores SIGTERM
-	KidIgnore   bool   `json:"kid_ignore"`    // children ignore SIGTERM
-	DetachIO    bool   `json:"detach_io"`
-	Trigger     string `json:"trigger"`       // "stop" | "shutdown" | "SIGTERM" | "SIGINT" | "SIGHUP"
-	DelayMs     int    `json:"delay_ms"`
-	Ordered     bool   `json:"ordered"`
-	Other       bool   `json:"other"` // a second, plain process in the project
+	Signal     int    `json:"signal"`
+	ParentOnly bool   `json:"parent_only"`
+	Timeout    int    `json:"timeout"`
+	Command    string `json:"command"` // "" | "ok" | "fail" | "hang"
+	Depth      int    `json:"depth"`
+	Kids       int    `json:"kids"`
+	Ignore     bool   `json:"ignore_term"` // the parent ignores SIGTERM
+	KidIgnore  bool   `json:"kid_ignore"`  // children ignore SIGTERM
+	DetachIO   bool   `json:"detach_io"`
+	Trigger    string `json:"trigger"` // "stop" | "shutdown" | "SIGTERM" | "SIGINT" | "SIGHUP"
+	DelayMs    int    `json:"delay_ms"`
+	Ordered    bool   `json:"ordered"`
+	Other      bool   `json:"other"` // a second, plain process in the project
 }
 
 func effSignal(s int) int {
@@ -526,7 +526,7 @@ func keysOf(m map[string]bool) []string {
 func init() {
 	fw.Register(&fw.Property{
 		ID: "C06", Level: "exploration",
-		Rule: "real bash process trees (parent, children, grandchildren; members ignoring SIGTERM; children with detached stdio) whose traps log every received signal, run by the real supervisor: grid signal in {1,2,3,10,12,15,0,-1,32,77} x parent_only x timeout {unset,1,2} x shutdown command {none, succeeds, fails, hangs}; stop triggers: StopProcess / ShutDownProject in-process at random instants and SIGTERM / SIGINT / SIGHUP sent to the built process-compose binary; oracles: trap logs (which signal, who received it), /proc scan for a per-case environment marker (survivors), SIGKILL only after timeout_seconds (lower bound) and eventually, shutdown command environment and directory, binary exit status; distinct = parameter combination",
+		Rule:        "real bash process trees (parent, children, grandchildren; members ignoring SIGTERM; children with detached stdio) whose traps log every received signal, run by the real supervisor: grid signal in {1,2,3,10,12,15,0,-1,32,77} x parent_only x timeout {unset,1,2} x shutdown command {none, succeeds, fails, hangs}; stop triggers: StopProcess / ShutDownProject in-process at random instants and SIGTERM / SIGINT / SIGHUP sent to the built process-compose binary; oracles: trap logs (which signal, who received it), /proc scan for a per-case environment marker (survivors), SIGKILL only after timeout_seconds (lower bound) and eventually, shutdown command environment and directory, binary exit status; distinct = parameter combination",
 		Assumptions: []string{"descendants that leave the process group are out of scope", "signals 9 and 19 cannot be trapped and are not in the grid", "/proc polled up to 5 s for survivors (load tolerance only)"},
 		Gen: func(seed int64, tier string) []fw.Case {
 			var cs []fw.Case
